@@ -676,8 +676,8 @@ class __Class(_pre.Pregex):
         :param str classes: One or more string character class patterns.
         '''
         range_pattern = \
-            r"(?:\\(?:\[|\]|\^|\$|\-|\/|[a-z]|\\)|[^\[\]\^\$\-\/\\])" + \
-            r"-(?:\\(?:\[|\]|\^|\$|\-|\/|[a-z]|\\)|[^\[\]\^\$\-\/\\])"
+            r"(?:\\(?:\[|\]|\^|\$|\-|\/|[a-z]|\\)|[^\[\]\^\-\/\\])" + \
+            r"-(?:\\(?:\[|\]|\^|\$|\-|\/|[a-z]|\\)|[^\[\]\^\-\/\\])"
         ranges = set(_re.findall(range_pattern, classes))
         classes = _re.sub(pattern=range_pattern, repl="", string=classes)
         return (ranges, set(_re.findall(r"\\?.", classes, flags=_re.DOTALL)))
@@ -695,7 +695,7 @@ class __Class(_pre.Pregex):
         def escape_char(c):
             return "\\" + c if c in __class__._to_escape else c
         def unescape_char(c):
-            return c.replace("\\", "", 1) if len(c) > 1 and c[1] in __class__._to_escape else c
+            return c.replace("\\", "", 1) if len(c) > 1 and c[1] in (*__class__._to_escape, '$') else c
 
         fun = escape_char if escape else unescape_char
         modified_classes = set()
